@@ -41,6 +41,24 @@ PNG = 'pico8.game.formatter.p8png'
 
 
 def rule_stego(ctx, res):
+    # whole-function evaluation first: whatever way the two loops are written
+    from . import cxcodecs as XC
+    try:
+        pe = XC.evaluate_png(ctx)
+        if not isinstance(pe.writer, AnalysisError) and \
+                not isinstance(pe.reader, AnalysisError):
+            d = pe.roundtrip_diff()
+            res.check(d is None, 'R-C04-stego', pe.wf.qual,
+                      'reader(writer(data, image)) == data; upper six bits '
+                      'of every sample and all pixels past the data are the '
+                      'source image\'s',
+                      'evaluated on a {}x{} image, {} planes, {} data bytes, '
+                      'all contents symbolic'.format(*XC.PNG_DIMS),
+                      'the .p8.png pixel codec does not round-trip: '
+                      '{}'.format(d), pe.wf.loc)
+            return
+    except AnalysisError:
+        pass
     r = codecs.png_reader_layout(ctx)
     w = codecs.png_writer_layout(ctx)
     f, g = r['func'], w['func']
